@@ -530,6 +530,19 @@ def run(ctx):
     prels = evaluate(ctx, {i: dict(c, errors=0) for i, c in pres.items() if c.get("probed")}) if pres else {}
     nprobe = sum(len(v) for v in prels.values())
     probe_fail = [(i, r) for i, v in prels.items() for r in v if r[0] == "T" and not r[4]]
+    # optimisation rows of ineq(): cl1's own rounding on the crafted (ill-conditioned) states allows a few loose rows;
+    # per probe case at least 80 % of them must reproduce tightly (a changed row rule moves all of them)
+    nrows = {"hard": 0, "opt": 0, "opt_tight": 0, "ineq_calls": 0}
+    for i, v in prels.items():
+        tot = sum(r[6] for r in v if r[2] == "ineq-opt-rows")
+        tight = sum(r[5] for r in v if r[2] == "ineq-opt-rows")
+        nrows["opt"] += int(tot)
+        nrows["opt_tight"] += int(tight)
+        nrows["hard"] += sum(int(r[3]) for r in v if r[2] == "ineq-rows")
+        nrows["ineq_calls"] += sum(1 for r in v if r[2] == "ineq-backeq")
+        if tot >= 5 and tight < 0.8 * tot:
+            probe_fail.append((i, ("T", "-", "ineq-opt-rows", "0", False, tight, tot)))
+    ctx.cov["ineq_rows_checked"] = nrows
     hist = {"db": {}, "n_phases": {}, "phase_opts": {}, "temp": {"0-15": 0, "15-35": 0, "35-70": 0, "70-100": 0}, "with_exchange": {},
             "with_surface": 0, "with_ss": {}, "stages": {}, "not_completed": 0, "crashed": 0, "errors": {}, "phase_states": {},
             "relations": {}, "calcs": 0, "warn_local_minimum": 0, "target_si": {"0": 0, "neg": 0, "pos": 0},
